@@ -1,6 +1,8 @@
 """Which rules decide which property (DESIGN §3), and the shared analysis context."""
 import frontend
 import rules_life
+import rules_layer
+import rules_guard
 
 
 class Context:
@@ -37,13 +39,43 @@ def on_program(rule):
     return run
 
 
+def callers_for(prop):
+    def run(ctx):
+        return ctx.memo("layer.callers." + prop, lambda: rules_layer.rule_callers(ctx.program, prop))
+    run.__name__ = "rule_callers[%s]" % prop
+    run.__module__ = "rules_layer"
+    return run
+
+
 STRUCTURAL = ("exact static rule check over all paths of the enumerated functions of /repo's current source; "
               "decides the named structural clauses (necessary conditions), not the behaviour itself")
 
 PROPS = {
+    "C13": {
+        "title": "Variable reordering preserves every function and every held edge",
+        "rules": [callers_for("C13"), on_program(rules_layer.rule_cache_before_rewrite), on_program(rules_layer.rule_exchange_once)],
+        "explanation": STRUCTURAL + ". C13: in-place rewrite/relabel/handle-swap primitives are reachable only from the adjacent-swap routines; every root of the reordering "
+                       "call cone clears the compute tables first; a swap routine that relabels levels exchanges the variable order exactly once.",
+        "assumptions": ["function preservation under the eight schedules is not decided", "swapAdjacentVariables called directly by a user (documented driver-only primitive) is outside the cone roots"],
+        "technique": "who-may-call tables over the resolved call graph; CFG dominance (cache clear before first reordering call); exactly-once path rule",
+        "level_text": "exact static rule check over the whole-program call graph and the CFGs of the reordering entry points; decides the invalidation/rewrite/relabel disciplines that reordering correctness needs, not function preservation itself",
+        "design_ref": "DESIGN.md §2.5, §3 C13",
+        "level_note": "trusts clang 14 call resolution (virtual calls expanded to all overriders) and the caller table in lib/rules_layer.py",
+    },
+    "C16": {
+        "title": "Misuse is rejected with the documented error and leaves all functions intact",
+        "rules": [on_program(r) for r in rules_guard.RULES],
+        "explanation": STRUCTURAL + ". C16: every misuse named by the property has a check that dominates the dangerous use and throws the documented code: constructor-chain "
+                       "domain/shape checks, zero-divisor and infinity tests, terminal overflow, value type, null operation, exhausted iterator.",
+        "assumptions": ["state after an error thrown mid-recursion (partially built results) is not decided", "only the enumerated entry points and partial operations are covered"],
+        "technique": "must-check dominance over clang CFGs (guard test with a throwing arm dominates the sink); rule instances enumerated from the class hierarchy",
+        "level_text": "exact static rule check: for each enumerated entry point / partial operation, every path to the dangerous use passes a test whose failing arm throws MEDDLY::error with the documented code; decides presence and placement of the checks, not the state after unwinding",
+        "design_ref": "DESIGN.md §2.4, §3 C16",
+        "level_note": "trusts clang 14 CFGs; the error code oracle is the enumerator named in the property's anchors",
+    },
     "C17": {
         "title": "Library, domain and forest lifecycles are safe in any order",
-        "rules": [on_program(r) for r in rules_life.RULES],
+        "rules": [on_program(r) for r in rules_life.RULES] + [callers_for("C17"), on_program(rules_layer.rule_edge_fields)],
         "explanation": STRUCTURAL + ". C17: teardown order in ~forest, registry discipline (ids never reused), init/cleanup pairing, "
                        "entry-type destruction pairing, factories forgetting destroyed operations, null-forest guards on detached edges.",
         "assumptions": ["clang 14 CFG is faithful", "virtual calls resolved to all overriders", "interleavings of destroy with populated monolithic tables beyond these ordering facts are not decided"],
